@@ -40,7 +40,7 @@ func (c10) Gen(r *rand.Rand, tier string, run int) *core.Case {
 	// and while the senders are at work (what is shared between endpoints -
 	// buffers, pools - must not suffer)
 	c.Params["doomed"] = []int{0, 0, 2, 5}[r.IntN(4)]
-	c.Params["transport"] = []int{0, 0, 1, 2, 3, 4}[r.IntN(6)]
+	c.Params["transport"] = []int{0, 0, 1, 2, 3, 4, 5}[r.IntN(7)]
 	c.Params["concurrent_install"] = r.IntN(2)
 	c.Params["fillers"] = []int{0, 0, 0, 9, 10, 11}[r.IntN(6)]
 	// handlers that come and go while the traffic flows
@@ -61,7 +61,7 @@ func (c10) Gen(r *rand.Rand, tier string, run int) *core.Case {
 		if c.Net.Capacity == 0 || c.Net.Capacity > 512 {
 			c.Net.Capacity = []int{16, 64, 512}[r.IntN(3)]
 		}
-		if c.Params["transport"] == 4 {
+		if c.Params["transport"] == 4 || c.Params["transport"] == 5 {
 			c.Params["transport"] = 1
 		}
 	}
@@ -163,12 +163,13 @@ func (c10) Run(c *core.Case, env *core.Env) {
 	// forms of Listen/DialEndPoint (tcp, unix, tcps on the dialing side);
 	// 4 the synchronous in-memory pipe (every Write waits for its reader)
 	transport := c.P("transport", 0)
-	addr := []string{"", "tcp://receiver:7", "unix:///run/receiver.sock", "tcps://receiver:7"}
+	// 5 the pipes whose ends travel over a unix socket (pipe://)
+	addr := []string{"", "tcp://receiver:7", "unix:///run/receiver.sock", "tcps://receiver:7", "", "pipe:///run/receiver-fd.sock"}
 	var a, b *simnet.Conn
 	var accepted net.Stream
 	var lst net.Listener
 	switch transport {
-	case 1, 2:
+	case 1, 2, 5:
 		l, err := net.Listen(addr[transport])
 		if err != nil {
 			env.Note("listen: %v", err)
@@ -327,6 +328,19 @@ func (c10) Run(c *core.Case, env *core.Env) {
 		}
 		ea = e
 		a = env.NW.Conns()[0]
+		if transport == 5 {
+			// what the sender writes goes into the pipe it made
+			a = nil
+			for _, cn := range env.NW.Conns() {
+				if cn.LocalAddr().Network() == "ospipe" && cn.Node() == "sender" {
+					a = cn
+				}
+			}
+			if a == nil {
+				env.Note("no pipe made by the sender")
+				return
+			}
+		}
 		env.Probe(fmt.Sprintf("transport-%s", addr[transport][:4]))
 	} else {
 		zzsim.SetNode("sender")
